@@ -118,7 +118,10 @@ def o16_1(tier):
                     for a, b in itertools.combinations(at, 2):
                         d = u[(a, v)][0] * u[(b, v)][0] + u[(a, v)][1] * u[(b, v)][1]
                         ctx.assume(S.arccos(d, ctx.it.decide) < limit, "pre: outer ends not flagged")
+            before = [ctx.list_of(e) for e in ctx.list_of(ctx.get(fr, "internal_big_edges_vertices"))]
             fm = force_matrix(ctx, fr, False, angle_limit=limit)
+            after = [ctx.list_of(e) for e in ctx.list_of(ctx.get(fr, "internal_big_edges_vertices"))]
+            ctx.ensure(after == before, "frame condition: building the (restricted) system does not modify the frame's own list of internal interfaces")
             internal = [ctx.list_of(ctx.callm(be, "get_vertices_ids")) for be in ctx.list_of(ctx.get(fr, "internal_big_edges"))]
             deletes = ctx.list_of(ctx.get(fm, "deletes"))
             used = [ctx.list_of(c) for c in ctx.list_of(ctx.get(fm, "big_edges_to_use"))]
